@@ -145,6 +145,27 @@ Section Store.
     end.
 End Store.
 
+(* ---------- histories of store operations ---------- *)
+(* The listed rules of one policy type / role definition after a history of AddPolicy /
+   RemovePolicy (AddGroupingPolicy / RemoveGroupingPolicy) calls, on the ordered-set semantics
+   above.  Two histories can reach the same SET of listed rules in different orders and through
+   different detours (rules added and removed again, links that were redundant when added). *)
+Section History.
+  Variable A : Type.
+  Variable A_eq_dec : forall a b : A, {a = b} + {a <> b}.
+
+  Inductive hop := HAdd (x : A) | HRemove (x : A).
+
+  Definition hstep (l : list A) (o : hop) : list A :=
+    match o with
+    | HAdd x => store_add A A_eq_dec x l
+    | HRemove x => store_remove A A_eq_dec x l
+    end.
+
+  (* the list after the history h, starting from l *)
+  Definition hrun (h : list hop) (l : list A) : list A := fold_left hstep h l.
+End History.
+
 (* ---------- matchers with role links ---------- *)
 Section Matcher.
   Variables request rule garg linkset : Type.
